@@ -76,6 +76,27 @@ def gen(tier, rng, scale):
                 items.append(["U", off, e, rng.choice([0, 0, 0, 10])])
             starts.append(off)
         cases.append({"flen": flen, "zs": zs, "ts": ts, "items": items})
+    # a plain read that spans more than two chunks leaves one long buffer behind; delimited reads are served from it at offsets of 64 KiB and
+    # more into that buffer, and asked again (the second answer comes from the string cache)
+    brng = rng.fork("bigbuf")
+    for ci in range((120 if quick else 1500) * scale):
+        flen = brng.choice([5 * CH + 7, 9 * CH + 3, 4 * CH])
+        off0 = brng.choice([0, 1, CH - 1, CH, brng.below(CH)])
+        size = min(flen - off0, 2 * CH + 1 + brng.below(2 * CH))
+        items = [["A", off0, size]]
+        zs = set()
+        for _ in range(brng.range(1, 4)):
+            d = 2 * CH + brng.below(max(1, size - 2 * CH)) if brng.chance(4, 5) else brng.below(size)
+            uo = off0 + d
+            z = min(flen - 1, uo + brng.choice([0, 1, 5, 60, 300, 4095]))
+            zs.add(z)
+            e = min(flen, z + brng.choice([1, 1, 2, 50]))
+            call = ["U", uo, e, 0]
+            items.append(list(call))
+            if brng.chance(1, 3):
+                items.append(["A", brng.below(flen), brng.choice([1, 8, 100])])
+            items.append(list(call))
+        cases.append({"flen": flen, "zs": sorted(zs), "ts": [], "items": items})
     # several threads on one shared cache, released together, many rounds per case: each thread starts with reads of chunks nobody has read yet
     # (simultaneous misses), then re-reads its own and the others' ranges; the last element of a call is its thread
     mrng = rng.fork("threads")
